@@ -236,7 +236,7 @@ pub fn run(ctx: &mut Ctx) {
     }
     let depth = ctx.pick(4u32, 7);
     let strat = (0usize..8, tree(depth, true), 0u64..48).prop_map(|(f, tree, pulls)| Case { ft: FTS[f], tree, pulls });
-    ctx.prop("random-trees", ctx.pick(30_000, 400_000), strat, check);
+    ctx.prop("random-trees", ctx.pick(100_000, 600_000), strat, check);
 
     // every single adaptor and every pair of unary adaptors over every frame type (small exhaustive catalogue)
     let unary: Vec<fn(Node) -> Node> = vec![
